@@ -145,13 +145,15 @@ func (u *Unit) VerifyFunc() {
 				if lbl == "" {
 					lbl = fmt.Sprintf("c%d", i)
 				}
-				if len(u.uncontracted) > 0 {
-					// the call may have moved into a helper that has no contract yet: that is
-					// not a violation, the contract files have to follow the refactoring
-					var hs []string
-					for h := range u.uncontracted {
+				var hs []string
+				for h, hf := range u.uncontracted {
+					if u.helperMayCall(hf, cl.Desig) {
 						hs = append(hs, h)
 					}
+				}
+				if len(hs) > 0 {
+					// the call moved into a helper that has no contract yet: that is not a
+					// violation, the contract files have to follow the refactoring
 					sort.Strings(hs)
 					u.errs = append(u.errs, fmt.Sprintf("cannot decide assert_call %s (%s): no call to %s here, but this function calls %s which has no contract", cl.Desig, lbl, cl.Desig, strings.Join(hs, ", ")))
 					continue
